@@ -60,6 +60,13 @@ def defuse_obligation(prop, touched):
               'the anchored operations must not raise NameError/UnboundLocalError on any path: every local is assigned on all paths before it is read (must-assigned forward analysis; loop bodies may run zero times)', body)
 
 
+def exits_obligation(prop):
+    from sa.rules import exits
+    return Ob(prop + '.X', 'EXITS (closed set of exits vs reference snapshot)', ', '.join(exits.DISPATCHERS[prop])[:160],
+              'the functions that decide this property by case analysis return only expressions of the kinds confirmed on the reference tree (name-blind, after normalisation); a new exit - typically a fast path in front of the real computation - is covered by none of the other obligations',
+              lambda ctx: exits.check_exits(ctx, prop))
+
+
 def check(prop, tier='quick', repo=None, only=None, quiet=False, write=True):
     t0 = time.time()
     seed = int(os.environ.get('VERIF_SEED', '0') or 0)
@@ -80,6 +87,8 @@ def check(prop, tier='quick', repo=None, only=None, quiet=False, write=True):
         if only and ob.oid not in only:
             continue
         results.append(run_obligation(ob, repo, tier, known))
+    if not only or (prop + '.X') in only:
+        results.append(run_obligation(exits_obligation(prop), repo, tier, known))
     if not only or (prop + '.U') in only:
         results.append(run_obligation(defuse_obligation(prop, list(repo.touched)), repo, tier, known))
     st = repo.stats()
